@@ -1085,6 +1085,10 @@ class TrA:
             if a is None or a[1] != "nat":
                 raise Refuse(f"{self.fn}: argument of `{e[1]}`")
             return f"(!AM.needGrow A {a[0]})"     # the guard of reserve(usize): the model's rule (executed probe)
+        if k == "bin" and e[1] in ("==", "!=") and e[2] == ("id", "this") and e[3][0] == "addr" and e[3][1][0] == "id" \
+                and env.get(e[3][1][1]) == "arr":
+            t = f"(v_{e[3][1][1]}).isNone"           # the argument is the object itself
+            return t if e[1] == "==" else f"(!{t})"
         if k == "not":
             return f"(!{self.bterm(e[1], env)})"
         if k == "bin" and e[1] in ("&&", "||"):
@@ -1290,8 +1294,12 @@ class TrA:
         if k == "return":
             if self.in_loop:
                 raise Refuse(f"{self.fn}: `return` inside a loop is outside the translated subset")
+            if self.ret == "self":
+                if s[1] != ("deref", ("id", "this")):
+                    raise Refuse(f"{self.fn}: returns something other than `*this`")
+                return [f"{ind}{self.result()}"]
             if s[1] is None:
-                if self.ret is not None:
+                if self.ret not in (None, "ctor"):
                     raise Refuse(f"{self.fn}: `return;` in a function that returns a value")
                 return [f"{ind}{self.result()}"]
             if self.ret is None:
@@ -1447,8 +1455,12 @@ AFUNCS = [
     ("Array::append(const Array&)", "appendArray", r"void\s+append\s*\(\s*const\s+Array\s*&\s*values\s*\)", [("values", "arr")], None),
     ("Array::remove(usize)", "removeIndex", r"void\s+remove\s*\(\s*usize\s+index\s*\)", [("index", "nat")], None),
     ("Array::remove(const Iterator&)", "removeIter", r"Iterator\s+remove\s*\(\s*const\s+Iterator\s*&\s*it\s*\)", [("it", "iter")], "ptr"),
+    ("Array::Array(const Array&)", "copyCtor", r"Array\s*\(\s*const\s+Array\s*&\s*other\s*\)\s*:\s*_capacity\s*\(\s*0\s*\)",
+     [("other", "arr")], "ctor"),
+    ("Array::operator=", "assign", r"Array\s*&\s*operator\s*=\s*\(\s*const\s+Array\s*&\s*other\s*\)", [("other", "arr")], "self"),
 ]
-ACALLEES = {("reserve", 1): ("reserve", ["nat"], None), ("reserve", 2): ("reserve2", ["nat", "ptr"], "ptr")}
+ACALLEES = {("reserve", 1): ("reserve", ["nat"], None), ("reserve", 2): ("reserve2", ["nat", "ptr"], "ptr"),
+            ("clear", 0): ("clear", [], None)}
 
 
 def generate_array(repo, out_path):
@@ -1490,11 +1502,11 @@ def generate_array(repo, out_path):
                     raise Refuse(f"Array::{acc}(): trailing tokens")
 
         def tail(env2, ind2, tr=tr, fn=fn):
-            if tr.ret is not None:
+            if tr.ret not in (None, "ctor"):
                 raise Refuse(f"{fn}: control reaches the end of a function that returns a value")
             return [f"{ind2}{tr.result()}"]
         sig = "".join(f" (v_{n} : {LEAN_TY[env[n]]})" for n, _ in params)
-        rty = "Option (Mem × Arr)" if ret is None else "Option (Mem × Arr × Option P)"
+        rty = "Option (Mem × Arr)" if ret in (None, "ctor", "self") else "Option (Mem × Arr × Option P)"
         if lean == "reserve":
             lines = tr.run(stmts, env, "    ", tail)
             lines = (["  -- capacity rounding: NOT translated (the model's rule; tied by the executed probe, SeqConst.lean)",
@@ -1502,6 +1514,9 @@ def generate_array(repo, out_path):
                      [l[2:] for l in lines])
         else:
             lines = tr.run(stmts, env, "  ", tail)
+            if ret == "ctor":
+                lines = ["  -- a fresh object: the two iterators are default-constructed (null), `_capacity(0)` from the initialiser list",
+                         "  let A : Arr := { begin := none, end_ := none, cap := 0 }"] + lines
         parts += [f"/-! ### {fn} -/"]
         for l in loops:
             parts += l
